@@ -204,6 +204,21 @@ func TestC10Sequences(t *testing.T) {
 			}
 			c.Dist.Drift = append(c.Dist.Drift, C10Drift{At: rapid.SampledFrom(slots).Draw(rt, "at"), Step: Step{Op: op, I: rapid.IntRange(0, 6).Draw(rt, "obj")}})
 		}
+		// directed: a third party deletes a phase object right before a successor revision (or template / package version) arrives,
+		// so the successor has to take over from a re-created phase object
+		second := -1
+		nset := 0
+		for si, s := range script.Steps {
+			if s.Op == "createSet" || s.Op == "editDeploy" || s.Op == "editPackage" {
+				nset++
+				if (s.Op == "createSet" && nset == 2) || (s.Op != "createSet" && second < 0) {
+					second = si
+				}
+			}
+		}
+		if second > 0 && rapid.IntRange(0, 2).Draw(rt, "phasedelete") == 0 {
+			c.Dist.Drift = append(c.Dist.Drift, C10Drift{At: second, Step: Step{Op: "tpDeletePhase", I: rapid.IntRange(0, 3).Draw(rt, "phase")}})
+		}
 		got, err := runC10(script, c.Dist)
 		if err == nil {
 			err = checkC10(ref, got)
